@@ -238,6 +238,38 @@ func c20Compact(r *Run, db *SiteDB) {
 	}
 	shifts := map[string]int64{}
 	widths := map[string]int64{"ino": ino, "minor": mnr, "major": mjr}
+	// which variable is which field: ino is the second parameter, major/minor the locals
+	// computed by unix.Major / unix.Minor (whatever they are called)
+	elRes := newResolver(r.L, info, el.Decl)
+	role := map[types.Object]string{}
+	devName, inoName := "dev", "ino"
+	if ps := el.Decl.Type.Params.List; len(ps) >= 1 {
+		var names []*ast.Ident
+		for _, f := range ps {
+			names = append(names, f.Names...)
+		}
+		if len(names) == 2 {
+			role[info.Defs[names[1]]] = "ino"
+			devName, inoName = names[0].Name, names[1].Name
+		}
+	}
+	ast.Inspect(el.Decl.Body, func(n ast.Node) bool {
+		if as, ok := n.(*ast.AssignStmt); ok && len(as.Lhs) == 1 && len(as.Rhs) == 1 {
+			ast.Inspect(as.Rhs[0], func(m ast.Node) bool {
+				if c, ok := m.(*ast.CallExpr); ok {
+					switch k := calleeKey(info, c); {
+					case strings.HasSuffix(k, "unix.Major"):
+						role[objOf(info, as.Lhs[0])] = "major"
+					case strings.HasSuffix(k, "unix.Minor"):
+						role[objOf(info, as.Lhs[0])] = "minor"
+					}
+				}
+				return true
+			})
+		}
+		return true
+	})
+	_ = elRes
 	ast.Inspect(el.Decl.Body, func(n ast.Node) bool {
 		as, ok := n.(*ast.AssignStmt)
 		if !ok || len(as.Lhs) != 1 || len(as.Rhs) != 1 {
@@ -246,13 +278,17 @@ func c20Compact(r *Run, db *SiteDB) {
 		if as.Tok == token.OR_ASSIGN {
 			if be, ok := unparen(as.Rhs[0]).(*ast.BinaryExpr); ok && be.Op == token.SHL {
 				if v, ok := eval(be.Y); ok {
-					shifts[norm(be.X)] = v
+					if rl := role[objOf(info, be.X)]; rl != "" {
+						shifts[rl] = v
+					} else {
+						shifts["?"+norm(be.X)] = v
+					}
 				}
 			}
 		}
 		if as.Tok == token.DEFINE || as.Tok == token.ASSIGN {
 			// q := ino & inoLikely
-			if be, ok := unparen(as.Rhs[0]).(*ast.BinaryExpr); ok && be.Op == token.AND && norm(be.X) == "ino" {
+			if be, ok := unparen(as.Rhs[0]).(*ast.BinaryExpr); ok && be.Op == token.AND && role[objOf(info, be.X)] == "ino" {
 				shifts["ino"] = 0
 			}
 		}
@@ -295,10 +331,10 @@ func c20Compact(r *Run, db *SiteDB) {
 		for _, p := range ex.St.Paths {
 			for k, v := range p {
 				kk := strings.ReplaceAll(k, " ", "")
-				if !v && strings.HasPrefix(kk, "ino&^") && strings.Contains(kk, "nOnes(inodeLikelyBits)") && strings.HasSuffix(kk, "==0") {
+				if !v && strings.HasPrefix(kk, inoName+"&^") && strings.Contains(kk, "nOnes(inodeLikelyBits)") && strings.HasSuffix(kk, "==0") {
 					// canonical "X == 0" false would mean != 0 … the guard is "(ino & ^inoLikely) != 0 → return": on success the atom "… == 0" is true
 				}
-				if v && strings.Contains(kk, "ino&^") && strings.Contains(kk, "nOnes(inodeLikelyBits)") && strings.HasSuffix(kk, "==0") {
+				if v && strings.Contains(kk, inoName+"&^") && strings.Contains(kk, "nOnes(inodeLikelyBits)") && strings.HasSuffix(kk, "==0") {
 					okIno = true
 				}
 				if !v && strings.Contains(kk, ">nOnes(devMajorLikelyBits)") && strings.Contains(kk, "Major(") {
@@ -307,7 +343,7 @@ func c20Compact(r *Run, db *SiteDB) {
 				if !v && strings.Contains(kk, ">nOnes(devMinorLikelyBits)") && strings.Contains(kk, "Minor(") {
 					okMin = true
 				}
-				if v && strings.Contains(kk, "dev&") && strings.Contains(kk, "nOnes(devUpperBits)<<devUpperOffset") && strings.HasSuffix(kk, "==0") {
+				if v && strings.Contains(kk, devName+"&") && strings.Contains(kk, "nOnes(devUpperBits)<<devUpperOffset") && strings.HasSuffix(kk, "==0") {
 					okUp = true
 				}
 			}
@@ -495,7 +531,7 @@ func c20Modes(r *Run) {
 				for _, e := range cc.List {
 					mask := uint64(0)
 					e = unparen(e)
-					if call, ok := e.(*ast.CallExpr); ok && norm(call.Fun) == "mode.IsDir" {
+					if call, ok := e.(*ast.CallExpr); ok && calleeKey(info, call) == "io/fs.FileMode.IsDir" {
 						mask = osConst("ModeDir")
 					} else if be, ok := e.(*ast.BinaryExpr); ok && be.Op == token.NEQ {
 						if and, ok := unparen(be.X).(*ast.BinaryExpr); ok && and.Op == token.AND {
@@ -641,7 +677,7 @@ func c20Modes(r *Run) {
 	// ModeFromOS starts from mode.Perm()
 	okPerm := false
 	ast.Inspect(mf.Decl.Body, func(n ast.Node) bool {
-		if c, ok := n.(*ast.CallExpr); ok && norm(c.Fun) == "mode.Perm" {
+		if c, ok := n.(*ast.CallExpr); ok && calleeKey(info, c) == "io/fs.FileMode.Perm" {
 			okPerm = true
 		}
 		return true
